@@ -560,7 +560,10 @@ class SCML_Supervised(_BaseSCML, TransformerMixin):
     """
 
     if isinstance(self.basis, str) and self.basis == 'lda':
-      basis, n_basis = self._generate_bases_LDA(X, y)
+      # (points with a negative label are unlabeled: they take no part;
+      # the labels are read as Constraints reads them)
+      known = np.asanyarray(y, dtype=int) >= 0
+      basis, n_basis = self._generate_bases_LDA(X[known], y[known])
     else:
       basis, n_basis = None, None
 
